@@ -8,23 +8,30 @@ LEVEL = "exploration"
 ENGINE = "E0 pure"
 TECHNIQUE = ("model-based testing: Hypothesis-generated histories (local file changes of size/mtime/ctime independently, renames, backup checks with and without trusted "
              "timestamps, uploads whose caps come from a small pool so that the same cap is recorded for several paths, forgotten caps, directory snapshots, clock advances) "
-             "against the real BackupDB_v2 on a fresh sqlite database with os.stat replaced by a generated stat table; dictionary reference model")
+             "against the real BackupDB_v2 on a fresh sqlite database with os.stat replaced by a generated stat table; dictionary reference model.  Second family: histories of "
+             "file writes (equal-size variants, modification time restored or not), deletions, clock jumps with a healthy/unhealthy grid and whole backup runs through the real "
+             "tahoe_backup code (collect_backup_targets, run_backup, BackupProgress, BackerUpper.upload/upload_directory) over a real directory tree and sqlite database, only "
+             "do_http replaced by an in-memory grid; the snapshot read back from the grid is compared with the local tree and every re-used cap with what it holds")
 RULE = ("each case: up to 25 operations over 4 paths, 4 content caps and small pools of sizes/timestamps. Model: path -> (size, mtime, ctime, cap) recorded by the most recent "
         "did_upload for that path, dropped when a check finds a mismatch (as the tool then re-uploads); directories: frozenset of (name, cap) -> dircap of the latest "
         "did_create. Oracle: check_file().was_uploaded() returns a cap iff the model holds a record for that path whose size, mtime and ctime equal the file's current ones, "
         "timestamps are trusted and the cap was not forgotten -- and then exactly that record's cap; check_directory().was_created() returns a dircap iff exactly the same "
         "name->cap contents were recorded, and then the latest one. Non-trivial = a reuse decision for a path whose cap is also recorded for another path, or after exactly "
-        "one of size/mtime/ctime changed; distinct by whole case.")
+        "one of size/mtime/ctime changed; distinct by whole case.  Tool family: 2-6 files in up to 4 directories (3 levels), 4-16 operations incl. >=2 backups; oracle: "
+        "a file cap is re-used only when size, mtime and ctime equal those of the path's most recent upload and timestamps are trusted, and it is that upload's cap; a "
+        "directory cap is re-used only when it holds exactly the name->cap mapping of the current run; the snapshot equals the local tree (for a file whose stat triple "
+        "is unchanged either the recorded or the current contents). Non-trivial there = a backup in which a sub-directory cap is re-used while its parent is re-created, "
+        "or any directory re-use in the third or a later backup.")
 LEVEL_TEXT = "Random histories against a dictionary model; the file system is a generated stat table."
 ASSUMPTIONS = ["should_check()/did_check_healthy (probabilistic re-checking) are exercised but not asserted", "paths are absolute (no cwd dependence)"]
-REQUIRED_CLASSES = ["reuse", "no-reuse-size", "no-reuse-mtime", "no-reuse-ctime", "no-reuse-timestamps-untrusted", "cap-shared-by-paths", "rename", "dir-reuse", "dir-changed", "forgot"]
+REQUIRED_CLASSES = ["reuse", "no-reuse-size", "no-reuse-mtime", "no-reuse-ctime", "no-reuse-timestamps-untrusted", "cap-shared-by-paths", "rename", "dir-reuse", "dir-changed", "forgot", "tool-file-reuse", "tool-file-upload", "tool-dir-reuse", "tool-subdir-reused-parent-recreated"]
 BUDGET = {"quick": 600, "thorough": 3600}
 PATHS = ["/verif-fake/a", "/verif-fake/b", "/verif-fake/c", "/verif-fake/d é"]
 
 
 def plan(tier):
     n = 600 if tier == "quick" else 6000
-    return [{"kind": "hyp", "n": n} for _ in range(16)]
+    return [{"kind": "hyp", "n": n} for _ in range(12)] + [{"kind": "tool", "n": 40 if tier == "quick" else 600} for _ in range(4)]
 
 
 p = st.integers(0, 3)
@@ -51,8 +58,226 @@ def cases(draw):
     return {"ops": pre + body}
 
 
+TOOL_PATHS = ["a.txt", "b.txt", "sub/c.txt", "sub/d.txt", "sub/deep/e.txt", "other/f \u00e9.txt"]
+tp = st.integers(0, len(TOOL_PATHS) - 1)
+tool_op = st.one_of(
+    st.tuples(st.just("write"), tp, st.integers(0, 5), st.sampled_from(["new", "new", "new", "mtime-kept", "ctime-kept", "both-kept"])),
+    st.tuples(st.just("write"), st.integers(2, 4), st.integers(0, 5), st.sampled_from(["new", "new", "mtime-kept", "both-kept"])),
+    st.tuples(st.just("delete"), tp),
+    st.tuples(st.just("backup"), st.sampled_from([False, False, False, True])),
+    st.tuples(st.just("backup"), st.just(False)),
+    st.tuples(st.just("tick"), st.sampled_from([1, 40, 61]), st.booleans()),
+).map(list)
+
+
+@st.composite
+def tool_cases(draw):
+    pre = [["write", i, draw(st.integers(0, 5)), "new"] for i in draw(st.lists(tp, min_size=2, max_size=6, unique=True))]
+    body = draw(st.lists(tool_op, min_size=2, max_size=14))
+    return {"fam": "tool", "ops": pre + [["backup", False]] + body + [["backup", False]]}
+
+
 def run_shard(spec, ctx):
-    ctx.drive(cases(), spec["n"], run_case)
+    if spec["kind"] == "tool":
+        ctx.drive(tool_cases(), spec["n"], run_case)
+    else:
+        ctx.drive(cases(), spec["n"], run_case)
+
+
+class _Resp:
+    def __init__(self, status, body=b""):
+        self.status, self._body = status, body
+
+    def read(self):
+        return self._body
+
+
+class FakeGrid:
+    """The only replaced part of `tahoe backup`: do_http.  Immutable files and immutable directories, caps numbered in creation order."""
+    def __init__(self):
+        self.files, self.dirs, self.healthy, self.requests = {}, {}, True, []
+
+    def do_http(self, method, url, body=b""):
+        import json
+        self.requests.append((method, url.split("/")[-1][:40]))
+        if method == "PUT" and url.endswith("/uri"):
+            data = body.read() if hasattr(body, "read") else body
+            cap = b"URI:CHK:file%04d" % len(self.files)
+            self.files[cap] = data
+            return _Resp(200, cap)
+        if method == "POST" and url.endswith("uri?t=mkdir-immutable"):
+            kids = json.loads(body.decode("utf-8"))
+            children = {}
+            for name, (kind_, info) in kids.items():
+                ro = info["ro_uri"]
+                children[name] = ro.encode("ascii") if isinstance(ro, str) else ro
+            cap = b"URI:DIR2-CHK:dir%04d" % len(self.dirs)
+            self.dirs[cap] = children
+            return _Resp(200, cap)
+        if method == "POST" and "t=check" in url:
+            return _Resp(200, json.dumps({"results": {"healthy": self.healthy}}).encode("ascii"))
+        raise AssertionError("unexpected request %s %s" % (method, url))
+
+    def read_tree(self, dircap, prefix=""):
+        out = {}
+        for name, cap in self.dirs[dircap].items():
+            if cap in self.dirs:
+                out[prefix + name + "/"] = None
+                out.update(self.read_tree(cap, prefix + name + "/"))
+            else:
+                out[prefix + name] = self.files[cap]
+        return out
+
+
+def run_tool_case(case, ctx):
+    """Histories of local changes and whole `tahoe backup` runs through the real tahoe_backup code (collect_backup_targets, run_backup,
+    BackupProgress, BackerUpper.upload/upload_directory) and a real sqlite backupdb.  Reference: per path the stat triple and the
+    contents of its most recent upload."""
+    import io, datetime
+    from allmydata.scripts import tahoe_backup, backupdb
+    from allmydata.util.encodingutil import listdir_unicode
+    d = ctx.casedir()
+    src = os.path.join(d, "home")
+    os.makedirs(src)
+    bdb = backupdb.get_backupdb(os.path.join(d, "backupdb.sqlite"), stderr=io.StringIO())
+    assert bdb is not None
+    grid = FakeGrid()
+    orig_http = tahoe_backup.do_http
+    tahoe_backup.do_http = grid.do_http
+    rec = {}            # abs path -> (size, mtime, ctime, contents uploaded then)
+    classes = set()
+    hist = []
+    nt = False
+    nbackups = 0
+    times = {}          # abs path -> (mtime, ctime) shown to the database
+    stamp = [0]
+    real_os = backupdb.os
+
+    class StatOS(FakeOS):
+        def stat(self, path):
+            r = os.stat(path)
+            if path in times:
+                m, c = times[path]
+                return os.stat_result((r.st_mode, r.st_ino, r.st_dev, r.st_nlink, r.st_uid, r.st_gid, r.st_size, m, m, c))
+            return r
+    backupdb.os = StatOS({})
+
+    def fstat(path):
+        r = backupdb.os.stat(path)
+        return (r[statmod.ST_SIZE], r[statmod.ST_MTIME], r[statmod.ST_CTIME])
+
+    class Options(dict):
+        pass
+    try:
+        for o in case["ops"]:
+            kind = o[0]
+            if kind == "write":
+                path = os.path.join(src, *TOOL_PATHS[o[1]].split("/"))
+                os.makedirs(os.path.dirname(path), exist_ok=True)
+                data = (b"variant %d " % (o[2] // 2 * 2)) * (1 + o[2] // 2) + (b"x" if o[2] % 2 else b"y")      # variants 2j and 2j+1 have equal sizes
+                with open(path, "wb") as f:
+                    f.write(data)
+                # whole-second timestamps as the database reads them; a write inside the same second (or a tool restoring mtime) keeps them
+                stamp[0] += 1
+                oldm, oldc = times.get(path, (None, None))
+                mode = o[3] if oldm is not None else "new"
+                times[path] = (oldm if mode in ("mtime-kept", "both-kept") else 1000 + stamp[0], oldc if mode in ("ctime-kept", "both-kept") else 2000 + stamp[0])
+                hist.append(("write", TOOL_PATHS[o[1]], len(data), mode))
+            elif kind == "delete":
+                path = os.path.join(src, *TOOL_PATHS[o[1]].split("/"))
+                if os.path.exists(path):
+                    os.unlink(path)
+                    hist.append(("delete", TOOL_PATHS[o[1]]))
+            elif kind == "tick":
+                boot.R.advance(o[1] * 86400)
+                grid.healthy = o[2]
+                hist.append(("tick-days", o[1], "grid-healthy" if o[2] else "grid-unhealthy"))
+            elif kind == "backup":
+                nbackups += 1
+                options = Options()
+                options["node-url"] = "http://127.0.0.1:3456/"
+                options["ignore-timestamps"] = o[1]
+                options.stdout, options.stderr = io.StringIO(), io.StringIO()
+                bu = tahoe_backup.BackerUpper(options)
+                bu.backupdb = bdb
+                bu.verbosity = 0
+                label = "backup #%d%s" % (nbackups, " (ignore-timestamps)" if o[1] else "")
+                hist.append((label,))
+                # ---- expectation, from the statement's rule
+                expected = {}
+                uploads_expected = {}
+                for dirpath, dirnames, filenames in os.walk(src):
+                    rel = os.path.relpath(dirpath, src).replace(os.sep, "/")
+                    if rel != ".":
+                        expected[rel + "/"] = None
+                    for fn in filenames:
+                        full = os.path.join(dirpath, fn)
+                        st3 = fstat(full)
+                        cur = open(full, "rb").read()
+                        r = rec.get(full)
+                        relf = (rel + "/" if rel != "." else "") + fn
+                        same = r is not None and (r[0], r[1], r[2]) == st3
+                        if same and not o[1]:
+                            expected[relf] = (r[3], cur)          # reuse permitted (either is what a correct tool may store)
+                            if r[3] != cur:
+                                classes.add("same-stat-different-content")
+                        else:
+                            expected[relf] = (cur, cur)
+                            uploads_expected[full] = st3
+                            if r is not None and sum(1 for i in range(3) if r[i] != st3[i]) == 1:
+                                classes.add("tool-exactly-one-of-size-mtime-ctime-changed")
+                reused_dirs = []
+
+                def upload_directory(path, compare_contents, create_contents, bu=bu):
+                    created, dircap = bu.upload_directory(path, compare_contents, create_contents)
+                    if not created:
+                        wanted = dict((n, create_contents[n][1]) for n in create_contents)
+                        have = grid.dirs.get(dircap)
+                        reused_dirs.append(path)
+                        if wanted != have:
+                            diff = sorted(n for n in set(wanted) | set(have or {}) if wanted.get(n) != (have or {}).get(n))
+                            ctx.fail("dir-reused-for-different-contents", "history=%r: %s re-used the directory cap %r for %s although its name->cap contents differ in %r" % (
+                                hist, label, dircap, os.path.relpath(path, src), diff), names=len(diff))
+                    return created, dircap
+
+                def upload(path, bu=bu):
+                    created, cap, md = bu.upload(path)
+                    if not created:
+                        r = rec.get(path)
+                        ok = r is not None and (r[0], r[1], r[2]) == fstat(path) and not o[1]
+                        ctx.check(ok, "file-reused-without-matching-record", "history=%r: %s re-used a cap for %s although %s" % (
+                            hist, label, os.path.relpath(path, src), "timestamps are not trusted" if o[1] else "size/mtime/ctime do not all match its most recent upload"))
+                        if ok:
+                            ctx.check(grid.files.get(cap) == r[3], "file-reused-wrong-cap", "history=%r: %s re-used for %s a cap that is not the one of its most recent upload" % (hist, label, os.path.relpath(path, src)))
+                            classes.add("tool-file-reuse")
+                    else:
+                        rec[path] = fstat(path) + (grid.files[cap],)
+                        classes.add("tool-file-upload")
+                    return created, cap, md
+                targets = list(tahoe_backup.collect_backup_targets(src, lambda p_: sorted(listdir_unicode(p_)), lambda children: children))
+                completed = tahoe_backup.run_backup(warn=bu.warn, upload_file=upload, upload_directory=upload_directory, targets=targets,
+                                                    start_timestamp=datetime.datetime(2030, 1, 1), stdout=io.StringIO())
+                snapshot = grid.read_tree(completed.dircap)
+                bad = sorted(k for k in set(snapshot) | set(expected) if (k not in snapshot) or (k not in expected) or (expected[k] is not None and snapshot[k] not in expected[k]))
+                if bad:
+                    ctx.fail("snapshot-differs", "history=%r: the snapshot made by %s differs from the local tree in %r (a stale cap was re-used or an entry was lost)" % (hist, label, bad[:6]), n=len(bad))
+                if reused_dirs:
+                    classes.add("tool-dir-reuse")
+                    if any(p_ != src for p_ in reused_dirs) and src not in reused_dirs:
+                        classes.add("tool-subdir-reused-parent-recreated")
+                        nt = True
+                if bu._files_checked or bu._directories_checked:
+                    classes.add("tool-grid-check" + ("" if grid.healthy else "-unhealthy"))
+                if nbackups >= 3:
+                    nt = nt or bool(reused_dirs)
+    finally:
+        tahoe_backup.do_http = orig_http
+        backupdb.os = real_os
+        try:
+            bdb.connection.close()
+        except Exception:
+            pass
+    ctx.note(sig=repr(case), nontrivial=nt, classes=sorted(classes), sample={"history": hist[:14]})
 
 
 class FakeOS:
@@ -71,6 +296,8 @@ class FakeOS:
 
 
 def run_case(case, ctx):
+    if case.get("fam") == "tool":
+        return run_tool_case(case, ctx)
     import sys, io
     from allmydata.scripts import backupdb
     d = ctx.casedir()
